@@ -17,3 +17,10 @@ PROP = {
         "F4 elements: Go's float32->float64 widening quiets signalling NaNs in the accessor values (the retained wire bytes are unchanged); both sides canonicalise F4 NaN patterns when comparing decoded values",
     ],
 }
+
+
+MANIFEST = {
+    "text": "Coq theorems over all byte strings: the decoder written with Go's index/slice operations never reaches outside the buffer (instrumented Panic twin) and terminates; it accepts exactly the receiver-side E5 grammar within depth 64 (soundness + completeness, canonical and non-canonical length fields), returns the grammar's value and the consumed prefix (re-encoding is byte-identical), and rejects each malformed class with a named lemma (unknown format code, zero length-byte count, truncated header/payload, payload not a multiple of the width, localized < 2, list count, depth 65); allocation accounting <= 565*len + 78144 for every input (child-count pre-check lemma; slab schedule bridged). Tied by a differential on valid encodings, all mutation kinds, hostile length claims and random strings, with measured TotalAlloc against the model's accounting.",
+    "note": 'The allocation theorem is about requested make/new sizes (size classes, GC and error values are runtime; 25% slack in the oracle). Error class is model-only; Decode/DecodeOwned agreement is checked on every input rather than proved (it is vacuous in a value model). The constant is 1+52+8*MaxListDepth per input byte, not the 64 the design first guessed.',
+    "technique": 'Rocq/Coq proof (fuel induction, instrumented Panic twin, cost invariant) + translator bridge + extracted-model differential on mutated bytes',
+}
